@@ -74,7 +74,7 @@ PDecode(w) == [mn |-> PMn(w), rt |-> PRt(w), ra |-> PRa(w), rb |-> PRb(w), rc |-
 \* ---- registers and condition register --------------------------------------------------
 PR(st, r)    == st.gpr[r + 1]
 PR0(st, r)   == IF r = 0 THEN Zero(32) ELSE st.gpr[r + 1]           \* (RA|0)
-PW(st, r, v) == [st EXCEPT !.gpr[r + 1] = v]
+PW(st, r, v) == [st EXCEPT !.gpr[r + 1] = TLCEval(v)]
 PSImm(d)     == Sext(16, 32, d.imm)
 PUImm(d)     == Zext(32, d.imm)
 
